@@ -367,6 +367,9 @@ func (d *c17Daemon) step(id string, r *rand.Rand) bool {
 					fid = requester.id
 				}
 				a.FaceId, exp.face = u64p(fid), fid
+			} else if r.Intn(4) == 0 {
+				a.FaceId = u64p(0) // FaceId 0 stands for the requesting face, like an absent FaceId
+				c.Count("rib_commands_with_faceid_zero", 1)
 			}
 			if r.Intn(2) == 0 {
 				o := []uint64{0, 65, 128, 255}[r.Intn(4)]
@@ -425,6 +428,13 @@ func (d *c17Daemon) step(id string, r *rand.Rand) bool {
 				rt := m[ks[r.Intn(len(ks))]]
 				fid, origin = rt.face, rt.origin
 				a.FaceId, a.Origin = u64p(fid), u64p(origin)
+				if fid == requester.id && r.Intn(2) == 0 {
+					a.FaceId = u64p(0) // the requesting face, written as 0
+					if r.Intn(2) == 0 {
+						a.FaceId = nil // or left out
+					}
+					c.Count("rib_commands_with_faceid_zero", 1)
+				}
 			}
 			d.log = append(d.log, fmt.Sprintf("%s: face %d rib/unregister %s face=%v origin=%v", id, requester.id, n, fmtU(a.FaceId), fmtU(a.Origin)))
 			cp := c17Params(a)
